@@ -7,8 +7,8 @@ sys.path.insert(0, HERE)
 CHECKS = {}   # id -> dict(technique, text, note, design_ref, engine)
 NA = {}       # id -> reason
 
-def chk(pid, technique, text, note, ref, engine="hypothesis"):
-    CHECKS[pid] = dict(technique=technique, text=text, note=note, ref=ref, engine=engine)
+def chk(pid, technique, text, note, ref, engine="hypothesis", category="exploration"):
+    CHECKS[pid] = dict(technique=technique, text=text, note=note, ref=ref, engine=engine, category=category)
 
 exec(open(os.path.join(HERE, "tools", "manifest_table.py")).read())
 
